@@ -24,8 +24,51 @@ def finding_for(known, pid, h, r):
             continue
         if 'replay' in m and not any(re.search(m['replay'], str(v)) for v in (r.get('replay') or {}).values()):
             continue
+        if 'e2e_message' in m and not re.search(m['e2e_message'], (r.get('e2e') or {}).get('message', '')):
+            continue
         return f
     return None
+
+
+def c21_string(h, vals):
+    m = h.meta
+    n = m.get('len', 0)
+    bs = [v[0] if v else 0 for v in vals[:n]]
+    if m.get('shape') == 'tail':
+        from .c21 import PREFIX
+        return (PREFIX[m['parser']].encode() + bytes(bs)).decode('utf-8', 'replace')
+    if m.get('shape') == 'multibyte':
+        out = bytearray()
+        for i in range(n + 1):
+            if i == m['pos']:
+                out += b'\xc3\xa9'
+            if i < n:
+                out.append(bs[i])
+        return out.decode('utf-8', 'replace')
+    return bytes(bs).decode('utf-8', 'replace')
+
+
+def c21_e2e(h, vals):
+    """replay through the real forc binary: a crafted Forc.lock must produce an error, not a panic"""
+    import subprocess, shutil
+    from sv.common import FORC, WORK, ensure_forc
+    ensure_forc()
+    s = c21_string(h, vals)
+    d = os.path.join(WORK, 'ks', 'C21', 'e2e', h.name)
+    shutil.rmtree(d, ignore_errors=True)
+    os.makedirs(os.path.join(d, 'src'))
+    open(os.path.join(d, 'Forc.toml'), 'w').write('[project]\nauthors = ["v"]\nentry = "main.sw"\nlicense = "Apache-2.0"\nname = "lk"\nimplicit-std = false\n')
+    open(os.path.join(d, 'src', 'main.sw'), 'w').write('script; fn main() {}\n')
+    q = json.dumps(s)
+    if h.meta.get('parser') == 'dep_line':
+        lock = f'[[package]]\nname = "lk"\nsource = "member"\ndependencies = [{q}]\n'
+    else:
+        lock = f'[[package]]\nname = "lk"\nsource = {q}\n'
+    open(os.path.join(d, 'Forc.lock'), 'w').write(lock)
+    r = subprocess.run([FORC, 'build', '--offline', '--path', d], text=True, stdout=subprocess.PIPE, stderr=subprocess.STDOUT,
+                       env=dict(os.environ, RUST_BACKTRACE='0', NO_COLOR='1'), timeout=300)
+    pan = re.search(r"panicked at ([^\n]*)\n([^\n]*)", r.stdout)
+    return {'string': s, 'lock': lock, 'panicked': bool(pan), 'message': (pan.group(1) + ' ' + pan.group(2)) if pan else r.stdout[-300:]}
 
 
 def main(argv=None):
@@ -87,6 +130,15 @@ def main(argv=None):
         elif r['status'] == 'failed':
             rep = r.get('replay') or {}
             reproduced = any('PANICKED' in str(v) for v in rep.values())
+            if reproduced and pid == 'C21':
+                e2e = c21_e2e(h, r.get('vals') or [])
+                r['e2e'] = e2e
+                rep['forc_e2e'] = e2e
+                if not e2e['panicked']:
+                    unexplored.append({'harness': h.name, 'why': 'counterexample depends on the outcome of a shimmed external parser; not reproduced through the real forc binary',
+                                       'string': e2e['string'], 'forc': e2e['message'][-200:]})
+                    st['unconfirmed'] = st.get('unconfirmed', 0) + 1
+                    continue
             if not reproduced:
                 engine_errors += 1
                 log(f'ENGINE-ERROR harness {h.name}: Kani counterexample did not reproduce natively: vals={r.get("vals")} replay={rep} checks={r["failed_checks"][:3]}')
